@@ -9,6 +9,7 @@ import (
 	"context"
 	"encoding/json"
 	"fmt"
+	"github.com/cloudwego/hertz/pkg/protocol/http1"
 	"strings"
 	"sync/atomic"
 	"time"
@@ -45,6 +46,9 @@ type Case struct {
 	Detailed  bool   `json:"detailed"`
 	Streaming bool   `json:"streaming"`
 	Split     bool   `json:"split"` // one read per request instead of pipelined
+	// NoPool: served with the request-context pool switched off (what HERTZ_DISABLE_REQUEST_CONTEXT_POOL=true does):
+	// every connection works on a context of its own that does not come out of the engine's pool
+	NoPool bool `json:"no_pool,omitempty"`
 }
 
 type entry struct {
@@ -184,7 +188,7 @@ func (w *worker) exec(c *mc.Ctx, cs Case) {
 		if cs.NoIdle {
 			mode = "re-entry"
 		}
-		c.Violate(fmt.Sprintf("%s|idle=%s|last=%c|end=%s", kind, mode, cs.Hist[len(cs.Hist)-1], cs.End),
+		c.Violate(fmt.Sprintf("%s|idle=%s|last=%c|end=%s%s", kind, mode, cs.Hist[len(cs.Hist)-1], cs.End, map[bool]string{false: "", true: "|context-pool-off"}[cs.NoPool]),
 			fmt.Sprintf("%s\nhistory=%q end=%s mode=%s detailed=%v streaming=%v split=%v\ntracer calls: %s (Serve returned %v)", msg, cs.Hist, cs.End, mode, cs.Detailed, cs.Streaming, cs.Split, seq, res.Err), cs)
 	}
 	if res.Panic != nil {
@@ -310,15 +314,15 @@ func run(c *mc.Ctx) {
 				for _, det := range []bool{false, true} {
 					for _, st := range []bool{false, true} {
 						for _, sp := range []bool{false, true} {
-							cases = append(cases, Case{h, end, ni, det, st, sp})
+							cases = append(cases, Case{Hist: h, End: end, NoIdle: ni, Detailed: det, Streaming: st, Split: sp})
 						}
 					}
 				}
 			}
 		}
 	}
-	c.Sample(Case{"oPw", "idle", false, true, false, true})
-	c.Sample(Case{"oo", "eof", true, true, true, false})
+	c.Sample(Case{Hist: "oPw", End: "idle", Detailed: true, Split: true})
+	c.Sample(Case{Hist: "oo", End: "eof", NoIdle: true, Detailed: true, Streaming: true})
 	ex := c.Counter("executions")
 	nt := c.Counter("nontrivial")
 	tr := c.Counter("transitions")
@@ -338,6 +342,25 @@ func run(c *mc.Ctx) {
 		}
 		pool <- w
 	})
+	// the same histories (up to 3 requests) with the context pool switched off; the switch is process-wide, so this is a
+	// pass of its own after the pooled one
+	var np []Case
+	for _, cs := range cases {
+		if len(cs.Hist) <= 3 {
+			cs.NoPool = true
+			np = append(np, cs)
+		}
+	}
+	c.Extra("no_pool_cases", len(np))
+	old := http1.SetDisableRequestContextPoolForVerif(true)
+	c.ParallelFor(len(np), func(i int) {
+		w := &worker{servers: map[string]*srvh.Server{}, logs: map[string]*[]entry{}}
+		w.exec(c, np[i])
+		atomic.AddInt64(ex, 1)
+		atomic.AddInt64(tr, int64(len(np[i].Hist)))
+		atomic.AddInt64(nt, 1)
+	})
+	http1.SetDisableRequestContextPoolForVerif(old)
 }
 
 func replay(c *mc.Ctx, raw json.RawMessage) {
@@ -345,6 +368,8 @@ func replay(c *mc.Ctx, raw json.RawMessage) {
 	if json.Unmarshal(raw, &cs) != nil {
 		return
 	}
+	old := http1.SetDisableRequestContextPoolForVerif(cs.NoPool)
+	defer http1.SetDisableRequestContextPoolForVerif(old)
 	w := &worker{servers: map[string]*srvh.Server{}, logs: map[string]*[]entry{}}
 	w.exec(c, cs)
 }
